@@ -8,6 +8,7 @@ import (
 	"sort"
 	"strings"
 
+	"golang.org/x/tools/go/callgraph"
 	"golang.org/x/tools/go/packages"
 	"golang.org/x/tools/go/ssa"
 	"golang.org/x/tools/go/ssa/ssautil"
@@ -28,6 +29,7 @@ type Program struct {
 	funcs map[string]*ssa.Function // qualified name -> function (repo only, incl. anon)
 
 	mutGlobals map[string]bool
+	vta        *callgraph.Graph
 }
 
 // MutableGlobal: is the package-level variable (named "<pkg>.<name>") stored
